@@ -29,9 +29,12 @@ impl DirIterNoDots {
     #[verifier::external_body]
     pub fn peek(&mut self) -> (r: Option<&Result<DirEntry, Errno>>) { unimplemented!() }
     /// A8 + the filter: every yielded name is a single component other than "." / ".."
+    /// the iterator has returned None
+    pub uninterp spec fn exhausted(&self) -> bool;
     #[verifier::external_body]
     pub fn next(&mut self) -> (r: Option<Result<DirEntry, Errno>>)
-        ensures r matches Some(Ok(d)) ==> entry_name(d.name())
+        ensures r matches Some(Ok(d)) ==> entry_name(d.name()),
+            r is None ==> final(self).exhausted(),
     { unimplemented!() }
 }
 pub fn into_iter_shim<T>(t: T) -> (r: T) ensures r == t { t }
